@@ -20,6 +20,7 @@ type fmtOpts struct {
 	AI     bool  `json:"ai"`
 	AD     bool  `json:"ad"`
 	ML     bool  `json:"ml"`
+	MLInit bool  `json:"mlinit"` // spec-side field (see Format.tla); mirrors ML for coders
 	Indent []int `json:"indent"` // [-1] = unset
 	Prefix []int `json:"prefix"`
 	SAC    int   `json:"sac"` // -1 unset, 0, 1
@@ -31,6 +32,8 @@ type fmtOpts struct {
 	CRF    bool  `json:"crf"`
 	ROR    bool  `json:"ror"`
 }
+
+func (f fmtOpts) withInit() fmtOpts { f.MLInit = f.ML; return f }
 
 func (f fmtOpts) options() []jsontext.Options {
 	var o []jsontext.Options
